@@ -29,7 +29,7 @@ CLAIMED.update({
              '${name} and \\${name} segments (one solver run per shape, names and values symbolic over all Unicode, symbolic environment of two variables, '
              'symbolic position among neighbours) the command receives exactly one argument equal to the verbatim single-pass substitution; %{name} '
              'yields exactly the space-separated words.',
-        note='Bounds: quick all shapes <= 2 segments + 10 seeded 3-segment shapes, names <= 2, values <= 4; thorough all 155 shapes <= 3 segments, values <= 5. '
+        note='Bounds: quick all shapes <= 2 segments + 10 seeded 3-segment shapes, names <= 2, values <= 4; thorough all 155 shapes <= 3 segments, values <= 5 (spread binding: <= 4 in both tiers). '
              'Spread values exclude " and #. One open known finding (escaped name containing \\$ \\% ${ %{). ' + TRUST,
         ref='4/C02'),
     'C06': dict(
